@@ -240,36 +240,93 @@ func (m *MonC18) AtBoundary(o *BlockOutcome) {
 		}
 		cont = append(cont, st)
 	}
-	known := ""
-	for i, st := range cont {
-		ra, ea := m.apply(&ctxA, st)
-		rb, eb := m.apply(&ctxB, st)
-		rep.Eval("C18.lock-step")
-		what := ""
-		if ra != rb {
-			what = fmt.Sprintf("results differ: original %q, re-imported %q", ra, rb)
-		} else if ea != eb {
-			what = "events differ"
-		} else if d := diffObs(m.observables(ctxA), m.observables(ctxB)); d != "" {
-			what = "observables differ: " + d
+	// lockstep runs the continuation on the original and on a re-imported branch; withFlag additionally sets
+	// the (non-exported) pending-rebalance flag on the re-imported branch before the continuation starts
+	lockstep := func(withFlag, withIndex bool) (int, string) {
+		a, _ := w.Ctx.CacheContext()
+		b, _ := w.Ctx.CacheContext()
+		if err := m.reimport(b, &gs2); err != nil {
+			return 0, err.Error()
 		}
-		if what != "" {
-			// recorded findings that make the two states observably different
-			if merged {
-				known = "redelegation-merge"
-			} else if s.Flag && (warm || strings.Contains(what, "val/") || strings.Contains(what, "bonded") || strings.Contains(what, "supply")) {
+		if withFlag {
+			_ = w.App.AllianceKeeper.QueueAssetRebalanceEvent(b)
+		}
+		if withIndex {
+			// restore by hand the by-source index entries that the import cannot know (merged records)
+			st := b.MultiStore().GetKVStore(w.App.GetKey(types.StoreKey))
+			for _, e := range m.R.Sh.Redel {
+				src, _ := sdk.ValAddressFromBech32(e.Src)
+				dst, _ := sdk.ValAddressFromBech32(e.Dst)
+				del, _ := sdk.AccAddressFromBech32(e.Del)
+				st.Set(types.GetRedelegationIndexKey(src, e.Completion, e.Denom, dst, del), []byte{})
+			}
+		}
+		for i, st := range cont {
+			ra, ea := m.apply(&a, st)
+			rb, eb := m.apply(&b, st)
+			rep.Eval("C18.lock-step")
+			if ra != rb {
+				return i, fmt.Sprintf("results differ: original %q, re-imported %q", ra, rb)
+			} else if ea != eb {
+				return i, "events differ: " + firstDiff(strings.Split(ea, "\n"), strings.Split(eb, "\n"))
+			} else if d := diffObs(m.observables(a), m.observables(b)); d != "" {
+				return i, "observables differ: " + d
+			}
+		}
+		return -1, ""
+	}
+	i, what := lockstep(false, false)
+	if what != "" {
+		known := ""
+		// counterfactuals: with the non-exported flag / the lost by-source index entries restored by hand the
+		// re-imported state must behave identically, otherwise the divergence has another cause
+		if s.Flag {
+			if _, w2 := lockstep(true, false); w2 == "" {
 				known = "rebalance-flag-not-exported"
 			}
-			if known != "" {
-				rep.KnownFinding("C18", known, "after export/import the continuation step %d (%s) behaves differently: %.300s", i, st.K, what)
-				rep.Class("C18.known." + known)
-				return
+		}
+		if known == "" && merged {
+			if _, w2 := lockstep(s.Flag, true); w2 == "" {
+				known = "redelegation-merge"
 			}
-			rep.Violate("C18", "C18.lock-step", o.Idx, "export/import at height %d, continuation step %d %s: %s", s.Height, i, st, what)
+		}
+		if known != "" {
+			rep.KnownFinding("C18", known, "after export/import the continuation step %d (%s) behaves differently: %.300s", i, cont[i].K, what)
+			rep.Class("C18.known." + known)
 			return
 		}
+		rep.Violate("C18", "C18.lock-step", o.Idx, "export/import at height %d, continuation step %d %s: %s", s.Height, i, cont[i], what)
+		return
 	}
 	rep.Class("C18.continuation-equal")
+}
+
+func eventsText(evs []abci.Event) []string {
+	var out []string
+	for _, e := range evs {
+		l := e.Type
+		for _, a := range e.Attributes {
+			l += " " + a.Key + "=" + a.Value
+		}
+		out = append(out, l)
+	}
+	return out
+}
+
+func firstDiff(a, b []string) string {
+	for i := 0; i < len(a) || i < len(b); i++ {
+		x, y := "<none>", "<none>"
+		if i < len(a) {
+			x = a[i]
+		}
+		if i < len(b) {
+			y = b[i]
+		}
+		if x != y {
+			return fmt.Sprintf("event %d: original %.220s | re-imported %.220s", i, x, y)
+		}
+	}
+	return ""
 }
 
 // apply executes one continuation step on a branch context; returns result string and events digest.
@@ -279,12 +336,12 @@ func (m *MonC18) apply(pctx *sdk.Context, st Step) (string, string) {
 	case "block":
 		eb := w.EndBlockOn(*pctx)
 		res := fmt.Sprintf("end[%s%s]", eb.Err, eb.Panic)
-		dg := eventsDigest(eb.Events)
+		dg := strings.Join(eventsText(eb.Events), "\n")
 		if eb.Failed() {
 			return res, dg
 		}
 		bb := w.BeginBlockOn(pctx, *st.Block, false)
-		return res + fmt.Sprintf(" begin[%s%s]", bb.Err, bb.Panic), dg + eventsDigest(bb.Events)
+		return res + fmt.Sprintf(" begin[%s%s]", bb.Err, bb.Panic), dg + "\n" + strings.Join(eventsText(bb.Events), "\n")
 	case "donate", "legacy_create", "legacy_update", "legacy_delete":
 		return "skipped", ""
 	default:
@@ -293,7 +350,7 @@ func (m *MonC18) apply(pctx *sdk.Context, st Step) (string, string) {
 			return "skipped", ""
 		}
 		r := w.RunMsgOn(*pctx, msg, true)
-		return r.String(), eventsDigest(r.Events)
+		return r.String(), strings.Join(eventsText(r.Events), "\n")
 	}
 }
 
